@@ -186,6 +186,7 @@ class Ctx(object):
                       suppress_health_check=list(HealthCheck), derandomize=False,
                       print_blob=False)
         to_case = to_case or (lambda v: v)
+        early = []          # the first cases of this search, judged again when the process has aged (pbt/ambient.py)
         for _ in range(MAX_BUCKETS_PER_TASK):
             last = {}
 
@@ -193,6 +194,11 @@ class Ctx(object):
             @st
             @given(strategy)
             def t(value):
+                if self.ambient.get("aged") and len(early) < 24:
+                    try:
+                        early.append(json.loads(json.dumps(value)))
+                    except (TypeError, ValueError):
+                        pass
                 try:
                     self._call(fn, self, value)
                 except Violation as v:
@@ -218,6 +224,8 @@ class Ctx(object):
                     raise Violation(b, str(e))
             try:
                 t()
+                if self.ambient.get("aged") and early and not self.violations:
+                    self._revisit(name, fn, early, to_case)
                 return
             except Exception as e:  # noqa
                 import hypothesis.errors as he
@@ -236,6 +244,33 @@ class Ctx(object):
                 self.found.add(b)
                 self.violations.append((b, m, _jsonable(c)))
         return
+
+    def _revisit(self, name, fn, early, to_case):
+        """The first cases of a finished search, judged again by the same oracle after the process was aged."""
+        from . import ambient
+        ambient.age()
+        ev = self.evaluations
+        for value in early:
+            try:
+                fn(self, value)
+            except Violation as v:
+                if not self.skip_bucket(v.bucket):
+                    self.found.add(v.bucket)
+                    self.violations.append((v.bucket + ":late-in-process", v.message + " [an early case of this search, "
+                                            "judged again after the process had aged: 6000 other structures, every ion, "
+                                            "24 more private tables]", _jsonable(v.case if v.case is not None else to_case(value))))
+                    return
+            except Exception as e:  # noqa
+                fr = lib_frame(e.__traceback__)
+                if fr is None:
+                    raise
+                b = "exc:%s:%s" % (type(e).__name__, fr)
+                if not self.skip_bucket(b):
+                    self.found.add(b)
+                    self.violations.append((b + ":late-in-process", "%s: %s [an early case judged again after the process "
+                                            "had aged]" % (type(e).__name__, e), _jsonable(to_case(value))))
+                    return
+        self.classes["revisited-after-aging"] = self.classes.get("revisited-after-aging", 0) + (self.evaluations - ev)
 
     def result(self):
         return dict(task=self.task, evaluations=self.evaluations,
